@@ -19,7 +19,7 @@ RULE = ("(store, request) pairs: stores of 0..60 objects with and without option
 ASSUMPTIONS = ["dotted paths address dictionaries only (CHOICE values decoded as (name, value) sequences are not addressable)",
                "ordering comparisons against a reference value of another type match nothing; order attributes are chosen among attributes present in every selected object",
                "tuple/list differences introduced by TinyDB's JSON storage are normalised before comparison"]
-REQUIRED_COUNTERS = ["requests", "dictionary_compared", "tinydb_compared", "backends_compared", "filters_selecting_proper_subset", "ordered_requests", "objects_lacking_attribute", "updates_between_requests", "repeated_requests"]
+REQUIRED_COUNTERS = ["requests", "dictionary_compared", "tinydb_compared", "backends_compared", "filters_selecting_proper_subset", "ordered_requests", "objects_lacking_attribute", "updates_between_requests", "repeated_requests", "hash_twin_requests"]
 
 TYPES = (2, 1, 16, 3, 14)
 OPS = ("==", "!=", ">", "<", ">=", "<=", "like", "notlike")
@@ -255,6 +255,18 @@ def run_case(c, res):
             if prev_rq is not None and mrng.random() < 0.3:
                 rq = prev_rq                 # the same request again (after the store may have changed)
                 res.count("repeated_requests")
+            elif prev_rq is not None and prev_rq["filter"] is not None and mrng.random() < 0.35:
+                # the previous request again with reference values that differ but hash alike in CPython (-1 / -2, x / x + 2^61-1):
+                # an answer must depend on the value, not on anything derived from hash(filter)
+                tw = copy.deepcopy(prev_rq)
+                changed = False
+                for st in (tw["filter"]["s1"], tw["filter"]["s2"]):
+                    if st and isinstance(st["ref"], int) and not isinstance(st["ref"], bool):
+                        st["ref"] = {-1: -2, -2: -1}.get(st["ref"], st["ref"] + (2 ** 61 - 1))
+                        changed = True
+                if changed:
+                    rq = tw
+                    res.count("hash_twin_requests")
             prev_rq = rq
             ctx = {"seed": c["seed"], "request_index": q, "request": rq, "store_size": len(recs)}
             res.count("requests")
